@@ -262,6 +262,7 @@ func runVerify(w *World, opt verifyOpts) int {
 	}
 	solveAll(w, obls, secs, depth, seed, workDir, thorough)
 
+	_ = os.RemoveAll(filepath.Join(opt.replays, opt.prop))
 	_ = os.MkdirAll(filepath.Join(opt.replays, opt.prop), 0755)
 	discharged := 0
 	nObl := 0
